@@ -2,15 +2,15 @@ SPECIFICATION MCSpec
 CONSTANTS
   GroupIds = {"g1"}
   StreamSet = {"sa", "sb"}
-  MaxParts = 2
+  MaxParts = 1
   Brokers = {"r1", "r2", "r3"}
   ConsumerSet = {"c1", "c2"}
   Coords = {"A", "X"}
-  OpKinds = {"CreateStream", "DeleteStream", "Pause", "Resume", "SetReadonly", "ShrinkISR", "ExpandISR", "ChangeLeader", "PublishActivity"}
+  OpKinds = {"CreateStream", "DeleteStream", "Pause", "Resume", "SetReadonly", "ShrinkISR", "ExpandISR", "ChangeLeader", "PublishActivity", "CreateGroup", "JoinGroup", "LeaveGroup", "ChangeCoordinator"}
   MaxOps = 3
   MaxSnaps = 1
   MaxRestarts = 1
 INVARIANTS NoTombLive GroupsFine EpochsFine FlagsConsistent
-PROPERTIES A_RS_Streams A_RS_RoEff A_RS_GroupMembers A_NoDataLoss A_NoResurrection A_NoApplyError
-VIEW MCView
+
+
 CHECK_DEADLOCK FALSE
